@@ -9,7 +9,7 @@ from hypothesis import strategies as st
 
 from conda_content_trust import authentication as A, common as C, root_signing as RS, signing as S
 
-from vlib import configrun, gen_envelope as GE, gen_json as G, gen_metadata as GM, gen_repodata as GR, gpgstub, keys, ref_grammar as g, \
+from vlib import configrun, siblings, gen_envelope as GE, gen_json as G, gen_metadata as GM, gen_repodata as GR, gpgstub, keys, ref_grammar as g, \
     ref_verify as RV
 from vlib.ref_canon import canon, jeq
 from vlib.runner import Unit, Violation
@@ -52,7 +52,7 @@ def _histories(draw):
     for _ in range(draw(st.integers(3, 14))):
         op = draw(st.sampled_from(OPS))
         ops.append([op, draw(st.integers(0, 7))])
-    return {"initial": env, "seeds": [s.hex() for s in seeds], "others": others, "ops": ops}
+    return {"initial": env, "seeds": [s.hex() for s in seeds], "others": others, "ops": ops, "sibling": draw(st.sampled_from(siblings.KINDS))}
 
 
 def _panel(env, pubs):
@@ -93,6 +93,12 @@ def check_history(case):
     try:
         gpgstub.install(RS, stub)
         model = copy.deepcopy(case["initial"])
+        planted = siblings.plant(fn, case.get("sibling", "none"))
+        for nm in planted:
+            pth = os.path.join(d, nm)
+            if os.path.isfile(pth):
+                with open(pth, "wb") as f:       # long left-over content (an earlier, interrupted write of a bigger document)
+                    f.write(b'{"left": "over", "pad": "' + b"x" * 5000 + b'"}')
         C.write_metadata_to_file(copy.deepcopy(model), fn)
 
         def check_file(step, library_write):
@@ -203,8 +209,8 @@ def check_history(case):
                     C.write_metadata_to_file(v, fn)
                 check_file(step, True)
                 reload_between = reload_between or sign_steps > 0
-        if sorted(os.listdir(d)) != ["metadata.json"]:
-            raise Violation("extra files left behind: %r" % os.listdir(d), bucket="extra files")
+        if sorted(os.listdir(d)) != sorted(["metadata.json"] + planted):
+            raise Violation("extra files left behind (or someone else's removed): %r" % sorted(os.listdir(d)), bucket="extra files")
     finally:
         gpgstub.uninstall(RS)
         shutil.rmtree(d, ignore_errors=True)
